@@ -13,6 +13,12 @@ Theorem C06_prefix_table : map fst tie_prefix_table = map pname all_prefixes /\
 Proof. exact tie_prefix_table_eq_model. Qed.
 Print Assumptions C06_prefix_table.
 
+(* convert_to_storage / convert_from_storage as executed on the source under every storage configuration equal the model
+   (gen/UnitsTie.v spells the statement out; it is [True] only on a run where the source could not be executed symbolically) *)
+Theorem C06_source_storage_equals_model : tie_storage_statement.
+Proof. exact tie_storage_proof. Qed.
+Print Assumptions C06_source_storage_equals_model.
+
 (* exactly the factor implied by molecular weight, density and specific activity, any prefixes *)
 Theorem C06_factor : forall s q p1 b1 p2 b2 f, wf_subst s -> factor s b1 b2 = Some f ->
   exists r, conv s q (p1, b1) (p2, b2) = Some r /\ r == q * pmult p1 * f / pmult p2.
